@@ -189,6 +189,23 @@ def main():
                 die("%s no longer goes through ord_internal" % fn)
         registered.append((name, fn))
 
+    # string->number: is a zero denominator rejected before `BigRational::new` can see it? -----------
+    strings = strip_comments(open(os.path.join(REPO, "crates/steel-core/src/primitives/strings.rs")).read())
+    parser = strip_comments(open(os.path.join(REPO, "crates/steel-core/src/parser/parser.rs")).read())
+    s2n = fn_body(strings, "string_to_number")
+    if not re.search(r"parse_number\s*\(", s2n):
+        die("string_to_number no longer calls parse_number")
+    filt = bool(re.search(r"parse_number\s*\([^;]*\)\s*\.filter\(\s*\|n\|\s*!\s*has_zero_denominator\(n\)\s*\)", s2n))
+    if filt:
+        hz = fn_body(strings, "has_zero_denominator")
+        filt = bool(re.search(r"IntLiteral::Small\(d\)\)\s*=>\s*\*d\s*==\s*0", hz)) and \
+            bool(re.search(r"IntLiteral::Big\(d\)\)\s*=>\s*\*\*d\s*==\s*(?:num_bigint::)?BigInt::ZERO", hz))
+    r2s = fn_body(parser, "real_literal_to_steelval")
+    guard = len(re.findall(r"division by zero in", r2s)) >= 3 and \
+        bool(re.search(r"\(_,\s*IntLiteral::Small\(0\)\)\s*=>", r2s)) and \
+        bool(re.search(r"\(_,\s*IntLiteral::Big\(d\)\)\s*if\s*\*\*d\s*==\s*(?:num_bigint::)?BigInt::ZERO\s*=>", r2s))
+    s2n_checked = filt and guard
+
     # write ----------------------------------------------------------------------------------------
     L = ["/- GENERATED by translate/c10_ops.py from vm.rs, compiler/program.rs, compiler/code_gen.rs and the",
          "   primitive registrations — do not edit. -/",
@@ -205,13 +222,18 @@ def main():
     L += ["]", "", "/-- the Rust function registered under each primitive name -/",
           "def registered : List (String × String) := ["]
     L.append(",\n".join('  ("%s", "%s")' % r for r in registered))
-    L += ["]", "", "end SteelVerif.C10.Gen", ""]
+    L += ["]", "",
+          "/-- `string->number` answers `#f` for a zero denominator (`has_zero_denominator` filter in string_to_number) and",
+          "`real_literal_to_steelval` guards `BigRational::new` against one (false: the code as pinned, finding K10g) -/",
+          "def s2nChecked : Bool := %s" % str(s2n_checked).lower(),
+          "", "end SteelVerif.C10.Gen", ""]
     text = "\n".join(L)
     old = open(OUT).read() if os.path.exists(OUT) else None
     if old != text:
         open(OUT, "w").write(text)
     print(json.dumps({"op_codes": len(dispatch), "emission_rules": len(rules), "registered": len(registered),
-                      "dispatch": {op: fns for (op, fns, _) in dispatch}, "changed": old != text}))
+                      "dispatch": {op: fns for (op, fns, _) in dispatch}, "s2nChecked": s2n_checked,
+                      "changed": old != text}))
 
 
 if __name__ == "__main__":
